@@ -280,6 +280,14 @@ func (p *PX) resolveCall(c *ssa.Call, fr *pxFrame, st *pxState) *pxCallee {
 // explorer's own call step (px.go).
 func (p *PX) calleeOf(c *ssa.Call, fr *pxFrame, st *pxState) *ssa.Function {
 	if sc := c.Call.StaticCallee(); sc != nil {
+		// (a closure or method value called where it is made — `writeItem := e.WriteData`
+		// with writeItem never reassigned — has the literal / bound wrapper as its
+		// "static" callee: the explorer's call step resolves it as a function value)
+		if len(sc.FreeVars) > 0 {
+			if fn, _, _ := p.funcValueCallee(c, fr, st); fn != nil {
+				return fn
+			}
+		}
 		return p.w.unthunk(sc)
 	}
 	if fn, _, _ := p.funcValueCallee(c, fr, st); fn != nil {
@@ -299,7 +307,7 @@ func (p *PX) callArgs(c *ssa.Call, fr *pxFrame, st *pxState) ([]ssa.Value, []*Te
 	for _, a := range c.Call.Args {
 		ts = append(ts, p.term(a, fr, st))
 	}
-	if c.Call.StaticCallee() == nil {
+	if sc := c.Call.StaticCallee(); sc == nil || len(sc.FreeVars) > 0 {
 		if fn, _, recv := p.funcValueCallee(c, fr, st); fn != nil {
 			if recv != nil {
 				// a method value: the receiver was bound when the value was made
@@ -307,8 +315,10 @@ func (p *PX) callArgs(c *ssa.Call, fr *pxFrame, st *pxState) ([]ssa.Value, []*Te
 			}
 			return c.Call.Args, ts
 		}
-		if rc := p.resolveCall(c, fr, st); rc != nil {
-			return rc.vals, rc.args
+		if sc == nil {
+			if rc := p.resolveCall(c, fr, st); rc != nil {
+				return rc.vals, rc.args
+			}
 		}
 	}
 	return c.Call.Args, ts
